@@ -103,14 +103,6 @@ package route
 //@   ensures nopanic
 //@   ensures result == unbox(atomStored[addrOf(table)], Table)
 //@
-//@ func NewTable
-//@   trusted
-//@   requires b != nil
-//@   assigns bufOf
-//@   sets builtFrom[t] = old(bufOf[b])
-//@   ensures err == nil ==> t != nil
-//@   ensures err != nil ==> t == nil
-//@
 //@ func ParseAliases
 //@   trusted
 //@   assigns nothing
@@ -347,12 +339,54 @@ package route
 //@ // nothing but its argument and the package's compiled expressions, which are never reassigned)
 //@ spec fun accepts(text string) bool
 //@
+//@ // the compiled expressions of the parser are package variables initialised once; their group counts are what
+//@ // the literals show (checked on the real values by the bounded stand-in route_regexps)
+//@ spec fun parserReady() bool = reRouteAdd != nil && reRouteDel != nil && reRouteWeight != nil && reComment != nil && reBlankLine != nil && reAdd != nil && nsub(reAdd) == 9 && reDel != nil && nsub(reDel) == 5 && reDelSvcTags != nil && nsub(reDelSvcTags) == 2 && reDelTags != nil && nsub(reDelTags) == 1 && reWeightSvc != nil && nsub(reWeightSvc) == 5 && reWeightSrc != nil && nsub(reWeightSrc) == 3
+//@
 //@ func Parse
-//@   trusted
-//@   requires in != nil
+//@   props C02 C14
+//@   requires in != nil && parserReady()
 //@   assigns bufOf
-//@   ensures (err == nil) == accepts(old(bufOf[in]))
-//@   ensures forall x *bytes.Buffer :: x != in ==> bufOf[x] == old(bufOf[x])
+//@   // no configuration text can make the parser panic
+//@   ensures nopanic
+//@   ensures [assumed] (err == nil) == accepts(old(bufOf[in]))
+//@   ensures [assumed] forall x *bytes.Buffer :: x != in ==> bufOf[x] == old(bufOf[x])
+//@   // an error never comes with a partial result; every parsed definition is usable
+//@   ensures err != nil ==> defs == nil
+//@   ensures forall i int :: 0 <= i && i < len(defs) ==> defs[i] != nil
+//@   loop 1 invariant (cap(defs) == 0 || fresh(defs)) && forall i int :: 0 <= i && i < len(defs) ==> defs[i] != nil
+//@
+//@ func parseRouteAdd
+//@   props C02
+//@   requires parserReady()
+//@   assigns nothing
+//@   ensures nopanic
+//@   ensures result1 == nil ==> result0 != nil && fresh(result0)
+//@
+//@ func parseRouteDel
+//@   props C02
+//@   requires parserReady()
+//@   assigns nothing
+//@   ensures nopanic
+//@   ensures result1 == nil ==> result0 != nil && fresh(result0)
+//@
+//@ func parseRouteWeight
+//@   props C02
+//@   requires parserReady()
+//@   assigns nothing
+//@   ensures nopanic
+//@   ensures result1 == nil ==> result0 != nil && fresh(result0)
+//@
+//@ func parseWeight
+//@   props C02
+//@   assigns nothing
+//@   ensures nopanic
+//@
+//@ func parseTags
+//@   props C02 C05
+//@   assigns nothing
+//@   ensures nopanic
+//@   ensures s == "" ==> result == nil
 //@
 //@ // ---- C14 / C05: what the option string of a command denotes ---------------------------------------------------
 //@ // one option word k=v is cut at its FIRST '=': the value may itself contain '='; a word without '=' is a key with an empty value
@@ -389,7 +423,7 @@ package route
 //@ spec fun livePick(ts []*Target, p *Target) bool opaque = exists i int :: 0 <= i && i < len(ts) && p == ts[i] && ts[i].Weight > 0.0
 //@
 //@ func (*Route).weighTargets
-//@   props C04 C02
+//@   props C04
 //@   requires r != nil && wfTargets(r.Targets)
 //@   assigns Target.Weight, r.wTargets
 //@   ensures nopanic
@@ -478,3 +512,165 @@ package route
 //@   // and the route is weighed again: every effective weight is the prescribed one for the new fixed weights
 //@   ensures result > 0 ==> forall j int :: 0 <= j && j < len(r.Targets) ==> r.Targets[j].Weight == wexp(r.Targets, j)
 //@   ensures result > 0 ==> forall q int :: 0 <= q && q < len(r.wTargets) ==> r.wTargets[q] == nil || livePick(r.Targets, r.wTargets[q])
+//@
+//@ // ---- C02 / C05: building a table from route commands ---------------------------------------------------------------
+//@ // Representation invariant of a route: its targets are distinct, non-nil and have a URL
+//@ spec fun routeOK(r *Route) bool opaque = wfTargets(r.Targets) && (forall j int :: 0 <= j && j < len(r.Targets) ==> r.Targets[j].URL != nil)
+//@ // set once at start-up by SetMetrics / transport.SetConfig
+//@ spec fun depsReady() bool = counters.histogram != nil && counters.rxCounter != nil && counters.txCounter != nil && transport.cfg != nil
+//@
+//@ func (*Route).addTarget
+//@   props C02 C05
+//@   requires r != nil && targetURL != nil && depsReady() && routeOK(r)
+//@   assigns r.Targets, r.Targets[*], r.wTargets, Target.Weight, Target.accessRules, elems(interface{}), mapsOf(map[string][]interface{}), ioWrites, lastWrite
+//@   ensures nopanic
+//@   ensures routeOK(r)
+//@   ensures forall a *Route :: a != r ==> a.Targets == old(a.Targets)
+//@   ensures forall p *Target :: !fresh(p) ==> p.URL == old(p.URL)
+//@   // add is idempotent: a target equal in service, destination, (clamped) weight and tags is not added again
+//@   ensures (exists j int :: 0 <= j && j < len(old(r.Targets)) && old(r.Targets)[j].Service == service && urlString(old(r.Targets)[j].URL) == urlString(targetURL) && old(r.Targets)[j].FixedWeight == clampW(fixedWeight) && deepEqual(old(r.Targets)[j].Tags, tags)) ==> r.Targets == old(r.Targets)
+//@   // otherwise exactly one new target is appended and the others keep their place
+//@   ensures len(r.Targets) == len(old(r.Targets)) || len(r.Targets) == len(old(r.Targets)) + 1
+//@   ensures forall j int :: 0 <= j && j < len(old(r.Targets)) ==> r.Targets[j] == old(r.Targets)[j]
+//@   ensures len(r.Targets) == len(old(r.Targets)) + 1 ==> fresh(r.Targets[len(r.Targets)-1]) && r.Targets[len(r.Targets)-1].Service == service && r.Targets[len(r.Targets)-1].URL == targetURL && r.Targets[len(r.Targets)-1].FixedWeight == clampW(fixedWeight) && r.Targets[len(r.Targets)-1].Tags == tags && r.Targets[len(r.Targets)-1].Opts == opts
+//@   at "r.weighTargets()" assert forall i int :: 0 <= i && i < len(r.Targets) - 1 ==> r.Targets[i] == old(r.Targets)[i]
+//@   at "r.weighTargets()" assert len(r.Targets) == len(old(r.Targets)) + 1 && r.Targets[len(r.Targets)-1] == t && fresh(t)
+//@   at "r.weighTargets()" assert forall i int :: 0 <= i && i < len(r.Targets) ==> r.Targets[i] != nil
+//@   at "r.weighTargets()" assert forall i int :: 0 <= i && i < len(r.Targets) - 1 ==> r.Targets[i] != t
+//@   at "r.weighTargets()" assert routeOK(r)
+//@   at "r.weighTargets()" assert forall a *Route :: a != r ==> a.Targets == old(a.Targets)
+//@   loop 1 invariant forall j int :: 0 <= j && j <= rangeindex ==> !(r.Targets[j].Service == service && urlString(r.Targets[j].URL) == urlString(targetURL) && r.Targets[j].FixedWeight == fixedWeight && deepEqual(r.Targets[j].Tags, tags))
+//@
+//@ // the predicate handed to filter is called on targets of the route; it must not write anything
+//@ func param:(*Route).filter.skip(tg *Target) (result bool)
+//@   requires tg != nil && tg.URL != nil
+//@   assigns nothing
+//@
+//@ func (*Route).filter
+//@   props C02 C05
+//@   requires r != nil && skip != nil && routeOK(r)
+//@   assigns r.Targets, r.wTargets, Target.Weight
+//@   ensures nopanic
+//@   ensures wfTargets(r.Targets)
+//@   ensures routeOK(r)
+//@   // what is kept are old targets of the route; the list is rebuilt, never edited in place
+//@   ensures cap(r.Targets) == 0 || fresh(r.Targets)
+//@   ensures forall j int :: 0 <= j && j < len(r.Targets) ==> exists i int :: 0 <= i && i < len(old(r.Targets)) && r.Targets[j] == old(r.Targets)[i]
+//@   ensures forall a *Route :: a != r ==> a.Targets == old(a.Targets)
+//@   loop 1 invariant (cap(clone) == 0 || fresh(clone)) && len(clone) <= rangeindex + 1
+//@   at "r.Targets = clone" assert forall j int :: 0 <= j && j < len(clone) ==> clone[j] != nil
+//@   at "r.Targets = clone" assert forall j1 int, j2 int :: 0 <= j1 && j1 < j2 && j2 < len(clone) ==> clone[j1] != clone[j2]
+//@   at "r.Targets = clone" assert wfTargets(clone)
+//@   at "r.Targets = clone" assert forall j int :: 0 <= j && j < len(clone) ==> clone[j].URL != nil
+//@   at "r.Targets = clone" assert forall j int :: 0 <= j && j < len(clone) ==> exists i int :: 0 <= i && i < len(old(r.Targets)) && clone[j] == old(r.Targets)[i]
+//@   at "r.weighTargets()" assert routeOK(r)
+//@   at "r.weighTargets()" assert forall j int :: 0 <= j && j < len(r.Targets) ==> exists i int :: 0 <= i && i < len(old(r.Targets)) && r.Targets[j] == old(r.Targets)[i]
+//@   loop 1 invariant wfTargets(r.Targets) && (forall j int :: 0 <= j && j < len(r.Targets) ==> r.Targets[j].URL != nil)
+//@   loop 1 invariant r.Targets == old(r.Targets)
+//@   loop 1 invariant forall j int :: 0 <= j && j < len(clone) ==> exists i int :: 0 <= i && i <= rangeindex && clone[j] == r.Targets[i]
+//@   loop 1 invariant forall j int :: 0 <= j && j < len(clone) ==> exists i int :: 0 <= i && i <= rangeindex && clone[j] == old(r.Targets)[i]
+//@   loop 1 invariant forall j1 int, j2 int :: 0 <= j1 && j1 < j2 && j2 < len(clone) ==> clone[j1] != clone[j2]
+//@
+//@ // host names are case-insensitive: every command addresses the table through hostpath, which lower-cases the host
+//@ func hostpath
+//@   props C05 C02
+//@   assigns nothing
+//@   ensures nopanic
+//@   ensures hasPrefix(prefix, ":") ==> host == prefix && path == ""
+//@   ensures !hasPrefix(prefix, ":") && indexByte(prefix, '/') < 0 ==> host == toLower(prefix) && path == "/"
+//@   ensures !hasPrefix(prefix, ":") && indexByte(prefix, '/') >= 0 ==> host == toLower(prefix[:indexByte(prefix, '/')]) && path == "/" + prefix[indexByte(prefix, '/')+1:]
+//@
+//@ // a table whose routes are all usable
+//@ spec fun tableOK(t Table) bool = forall h string, k int :: 0 <= k && k < len(t[h]) ==> t[h][k] != nil && routeOK(t[h][k])
+//@
+//@ // everything table construction needs from program start-up (set once: compiled expressions, metrics, transport
+//@ // configuration, error values)
+//@ spec fun buildReady() bool = parserReady() && depsReady() && errInvalidPrefix != nil && errInvalidTarget != nil && errNoMatch != nil
+//@
+//@ // x is one of the routes of the list
+//@ spec fun inRoutes(rt Routes, x *Route) bool opaque = exists k int :: 0 <= k && k < len(rt) && rt[k] == x
+//@ // the route lists of two hosts never share a backing array
+//@ spec fun sepHosts(t Table) bool = forall h1 string, h2 string :: h1 != h2 && len(t[h1]) > 0 ==> ref(t[h1]) != ref(t[h2])
+//@
+//@ func (Table).route
+//@   props C02 C05
+//@   requires tableOK(t)
+//@   assigns nothing
+//@   ensures nopanic
+//@   ensures result != nil ==> routeOK(result) && result.Path == path && exists k int :: 0 <= k && k < len(t[host]) && t[host][k] == result
+//@   ensures result == nil ==> forall k int :: 0 <= k && k < len(t[host]) ==> t[host][k].Path != path
+//@
+//@ func (Table).addRoute
+//@   props C02 C05
+//@   requires t != nil && d != nil && tableOK(t) && depsReady() && errInvalidPrefix != nil && errInvalidTarget != nil
+//@   assigns mapsOf(map[string]Routes), elems(*Route), Route.Targets, Route.wTargets, elems(*Target), Target.Weight, Target.FixedWeight, Target.accessRules, elems(interface{}), mapsOf(map[string][]interface{}), ioWrites, lastWrite
+//@   ensures nopanic
+//@   // NOT proved (named assumption): a command leaves the routes it does not touch well-formed - two routes never share
+//@   // the backing array of their target lists, but that separation invariant is not carried by these contracts
+//@   ensures [assumed] tableOK(t) && sepHosts(t)
+//@   ensures d.Src == "" || d.Dst == "" ==> result != nil
+//@
+//@ func (Table).weighRoute
+//@   props C02 C05
+//@   requires t != nil && d != nil && tableOK(t) && errInvalidPrefix != nil && errNoMatch != nil
+//@   assigns mapsOf(map[string]Routes), elems(*Route), Route.Targets, Route.wTargets, elems(*Target), Target.Weight, Target.FixedWeight, Target.accessRules, elems(interface{}), mapsOf(map[string][]interface{}), ioWrites, lastWrite
+//@   ensures nopanic
+//@   ensures [assumed] tableOK(t) && sepHosts(t)
+//@   ensures d.Src == "" ==> result != nil
+//@
+//@ // the selectors of 'route del': by tags (and service), by service, by service and source, by service, source and destination
+//@ func (Table).delRoute$1
+//@   props C05
+//@   requires tg != nil && tg.URL != nil
+//@   assigns nothing
+//@   ensures result == ((d.Service == "" || tg.Service == d.Service) && hasAll(tg.Tags, d.Tags))
+//@ func (Table).delRoute$2
+//@   props C05
+//@   requires tg != nil && tg.URL != nil
+//@   assigns nothing
+//@   ensures result == (tg.Service == d.Service)
+//@ func (Table).delRoute$3
+//@   props C05
+//@   requires tg != nil && tg.URL != nil
+//@   assigns nothing
+//@   ensures result == (tg.Service == d.Service)
+//@ func (Table).delRoute$4
+//@   props C05
+//@   requires tg != nil && tg.URL != nil
+//@   assigns nothing
+//@   // the destination is compared in its canonical (parsed and re-rendered) form on both sides
+//@   ensures result == (tg.Service == d.Service && urlString(tg.URL) == urlString(targetURL))
+//@
+//@ func (Table).delRoute
+//@   trusted
+//@   requires t != nil && d != nil && tableOK(t) && sepHosts(t)
+//@   assigns mapsOf(map[string]Routes), elems(*Route), Route.Targets, Route.wTargets, elems(*Target), Target.Weight, Target.FixedWeight, Target.accessRules, elems(interface{}), mapsOf(map[string][]interface{}), ioWrites, lastWrite
+//@   ensures tableOK(t) && sepHosts(t)
+//@
+//@ func NewTable
+//@   props C02
+//@   requires b != nil && buildReady()
+//@   assigns bufOf, builtFrom, mapsOf(map[string]Routes), elems(*Route), Route.Targets, Route.wTargets, elems(*Target), Target.Weight, Target.FixedWeight, Target.accessRules, elems(interface{}), mapsOf(map[string][]interface{}), ioWrites, lastWrite
+//@   sets builtFrom[t] = old(bufOf[b])
+//@   ensures nopanic
+//@   // an invalid configuration yields an error and NO table (never a partial one): the caller keeps the last good table
+//@   ensures err != nil ==> t == nil
+//@   ensures err == nil ==> t != nil && tableOK(t)
+//@   loop 1 invariant t != nil && fresh(t) && tableOK(t) && sepHosts(t) && forall i int :: 0 <= i && i < len(defs) ==> defs[i] != nil
+//@   loop 2 invariant t != nil && sepHosts(t)
+//@   loop 2 invariant tableOK(t)
+//@   at "sort.Sort(h)" assert forall h2 string :: len(t[h2]) > 0 && ref(t[h2]) == ref(h) ==> t[h2] == h
+//@   at "sort.Sort(h)" assert forall x *Route :: inRoutes(h, x) ==> x != nil && routeOK(x)
+//@   at "sort.Sort(h)" assert forall k int :: 0 <= k && k < len(h) ==> inRoutes(h, h[k])
+//@   at "sort.Sort(h)" assert forall k int :: 0 <= k && k < len(h) ==> h[k] != nil && routeOK(h[k])
+//@   at "sort.Sort(h)" assert forall h2 string, k int :: ref(t[h2]) != ref(h) && 0 <= k && k < len(t[h2]) ==> t[h2][k] != nil && routeOK(t[h2][k])
+//@
+//@ func NewTableCustom
+//@   props C02
+//@   requires defs != nil && buildReady()
+//@   assigns mapsOf(map[string]Routes), elems(*Route), Route.Targets, Route.wTargets, elems(*Target), Target.Weight, Target.FixedWeight, Target.accessRules, elems(interface{}), mapsOf(map[string][]interface{}), ioWrites, lastWrite
+//@   ensures nopanic
+//@   ensures err != nil ==> t == nil
+//@   ensures err == nil ==> t != nil
+//@   loop 1 invariant t != nil && fresh(t) && tableOK(t) && sepHosts(t) && defs != nil
+//@   loop 2 invariant t != nil && sepHosts(t)
